@@ -16,6 +16,8 @@ A universe is plain JSON data:
   ctrl  = {"name","prefix","security":[sec],"routes":[route]}
   route = {"name","verb","path","hidden","params":[{"name","loc","alias","type","validate"}],
            "ret": texpr|None, "err": None|[pkg,name], "errors": [[code, descr]], "security": [sec]}
+          a parameter with "loc": "ctx" is a context.Context parameter (no annotation), at its position
+          in the Go signature
 """
 import copy
 import json
@@ -93,6 +95,8 @@ def texpr_coq(t):
 
 STR_VALUES = ["red", "blue", "green", "a-b", "x_y", "Up", "dn", "q9", "two words"]
 TRICKY_STR_VALUES = ["1", "true", "null", "1e3", "", "~", "0x1F", "2020-01-01"]
+# values a Go / JSON / YAML string literal has to escape: quote, backslash, tab, another control character
+LITERAL_UNSAFE_VALUES = ['"', "\\", "\t", "a\"b", "c:\\dir", "x\ty", "\x01", "it's", "`"]
 
 
 def gen_enum(rng, pkg, name, opts):
@@ -103,6 +107,8 @@ def gen_enum(rng, pkg, name, opts):
         pool = list(STR_VALUES)
         if opts.get("tricky_enum_values") and rng.random() < 0.12:
             pool = pool[:3] + TRICKY_STR_VALUES
+        elif opts.get("literal_unsafe_enum_values") and rng.random() < opts["literal_unsafe_enum_values"]:
+            pool = pool[:2] + LITERAL_UNSAFE_VALUES
         for i, v in enumerate(rng.sample(pool, min(n, len(pool)))):
             consts.append(["%s%s%d" % (name, rng.choice(["A", "Z", "M"]), i), json.dumps(v), v])
     elif base == "bool":
@@ -181,6 +187,13 @@ def gen_json_tag(rng, fname, opts):
     return "shared"
 
 
+# rules that are not the `required` rule although the word occurs in them: as the parameter of another
+# rule (after `=`, between the blanks of a oneof list) or as the prefix of a rule of the required_* family
+REQUIRED_AS_WORD = ["omitempty,oneof=required optional forbidden", "eq=required", "ne=required",
+                    "omitempty,oneof=optional required", "excluded_if=F0 required", "required_if=F0 optional",
+                    "required_with=F0", "required_without=F1", "omitempty,min=1,ne=required"]
+
+
 def gen_validate(rng, t):
     """Validation strings that do not touch a shared component."""
     r = rng.random()
@@ -188,6 +201,8 @@ def gen_validate(rng, t):
         return ""
     is_str = t == ["prim", "string"] or t == ["ptr", ["prim", "string"]]
     is_num = t[0] == "prim" and (t[1] in INT_KINDS or t[1].startswith("float"))
+    if r < 0.53 and (is_str or rng.random() < 0.3):
+        return rng.choice(REQUIRED_AS_WORD)
     if r < 0.70:
         return "required"
     if is_str:
@@ -200,9 +215,14 @@ def gen_validate(rng, t):
     return rng.choice(["required", ""])
 
 
+def tag_safe(v):
+    """A value that can stand as one word in a rule of a validate tag written in a raw-string struct tag."""
+    return bool(re.match(r"^[A-Za-z0-9_.:~-]+$", v))
+
+
 def dive_tag(rng, e):
     """`dive,oneof=<one declared value>` for a collection of the enum e (None if no value is a single word)."""
-    vals = [c[2] for c in e["consts"] if c[2] and " " not in c[2]]
+    vals = [c[2] for c in e["consts"] if tag_safe(c[2])]
     if not vals:
         return None
     return rng.choice(["dive,oneof=%s", "required,dive,oneof=%s", "dive,enum=%s"]) % rng.choice(vals)
@@ -307,8 +327,15 @@ def gen_route(rng, idx, u, usable, opts):
             t = ["ptr", t]
         nm = "q%d" % k
         k += 1
+        val = rng.choice([None, None, "required"])
+        if t in (prim("string"), ["ptr", prim("string")]) and rng.random() < 0.3:
+            val = rng.choice(REQUIRED_AS_WORD[:5])
         params.append({"name": nm, "loc": loc, "alias": rng.choice([None, None, "X-" + nm, nm + "_w"]),
-                       "type": t, "validate": rng.choice([None, None, "required"])})
+                       "type": t, "validate": val})
+    if rng.random() < opts.get("ctx_params", 0.3):
+        # a context.Context parameter: anywhere in the signature, most often first
+        at = 0 if rng.random() < 0.6 else rng.randint(0, len(params))
+        params.insert(at, ctx_param())
     ret = None
     r = rng.random()
     if r < 0.55 and structs:
@@ -333,6 +360,10 @@ def gen_route(rng, idx, u, usable, opts):
     return {"name": "M%d%s" % (idx, rng.choice(["Get", "Put", "Do"])), "verb": verb, "path": path,
             "hidden": rng.random() < 0.12, "params": params, "ret": ret, "err": None, "errors": errors,
             "security": []}
+
+
+def ctx_param(name="ctx"):
+    return {"name": name, "loc": "ctx", "alias": None, "type": prim("context.Context"), "validate": None}
 
 
 def gen_universe(rng, opts=None):
@@ -393,6 +424,40 @@ def add_custom_error(rng, u, all_routes=False):
             r["err"] = ["ctl", "CErr"]
     if not any(r["err"] for r in routes):
         routes[0]["err"] = ["ctl", "CErr"]
+
+
+def texpr_rename(t, key, new):
+    k = t[0]
+    if k == "named":
+        return ["named", t[1], new] if (t[1], t[2]) == tuple(key) else t
+    if k in ("ptr", "slice"):
+        return [k, texpr_rename(t[1], key, new)]
+    if k == "map":
+        return ["map", texpr_rename(t[1], key, new), texpr_rename(t[2], key, new)]
+    return t
+
+
+def rename_type(u, key, new):
+    """A copy of the universe in which the declaration key = (pkg, name) is called `new` everywhere."""
+    v = copy.deepcopy(u)
+    for d in v["decls"]:
+        if (d["pkg"], d["name"]) == tuple(key):
+            d["name"] = new
+        if d["kind"] == "struct":
+            for f in d["fields"]:
+                f["type"] = texpr_rename(f["type"], key, new)
+                if f["embedded"] and f["name"] == key[1] and f["type"] != ["prim", "error"]:
+                    f["name"] = new
+        elif d["kind"] == "alias":
+            d["rhs"] = texpr_rename(d["rhs"], key, new)
+    for r in all_routes(v):
+        for p in r["params"]:
+            p["type"] = texpr_rename(p["type"], key, new)
+        if r["ret"]:
+            r["ret"] = texpr_rename(r["ret"], key, new)
+        if r["err"] and tuple(r["err"]) == tuple(key):
+            r["err"] = [key[0], new]
+    return v
 
 
 def all_routes(u):
@@ -505,6 +570,8 @@ def sec_annotation(sc):
 def render_route(c, r):
     lines = ["// @Method(%s)" % r["verb"], "// @Route(%s)" % r["path"]]
     for p in r["params"]:
+        if p["loc"] == "ctx":
+            continue                # a context parameter carries no annotation
         props = []
         if p["alias"]:
             props.append("name:%s" % go_str(p["alias"]))
@@ -542,6 +609,8 @@ def write_pkg(root, modpath, pkg, chunks, fname):
         imports.append('"github.com/gopher-fleece/runtime"')
     if re.search(r"(?<![A-Za-z_])time\.", src):
         imports.append('"time"')
+    if "context.Context" in src:
+        imports.append('"context"')
     for other in ("types", "other"):
         if other != pkg and (other + ".") in src:
             imports.append('"%s/%s"' % (modpath, other))
@@ -634,10 +703,12 @@ def render_config(u, root, modpath, openapi):
 SENTINEL = '{"sentinel": "left by an earlier run"}\n'
 
 
-def run_universes(prop, universes, versions=VERSIONS, tag="mod", sentinel=()):
-    """Render every universe, run the real CLI for each version.  Returns per universe a dict
-    version -> {exit, out, spec, spec_exists, dir, sentinel, untouched}.  For the universe indices in
-    `sentinel` a spec file with foreign content is placed at the output path before the run."""
+def run_universes(prop, universes, versions=VERSIONS, tag="mod", sentinel=(), command="spec"):
+    """Render every universe, run the real CLI (`generate <command>`: spec, or spec-and-routes which
+    renders the routes file first and then the specification from the same metadata) for each version.
+    Returns per universe a dict version -> {exit, out, spec, spec_exists, dir, sentinel, untouched}.
+    For the universe indices in `sentinel` a spec file with foreign content is placed at the output
+    path before the run."""
     build_cli()
     moddir = os.path.join(WORK, prop, tag)
     shutil.rmtree(moddir, ignore_errors=True)
@@ -653,7 +724,7 @@ def run_universes(prop, universes, versions=VERSIONS, tag="mod", sentinel=()):
                 os.makedirs(os.path.join(root, "dist"), exist_ok=True)
                 with open(os.path.join(root, "dist", "spec-%s.json" % v), "w") as f:
                     f.write(SENTINEL)
-            jobs.append({"dir": root, "args": ["generate", "spec", "-c", cfgname]})
+            jobs.append({"dir": root, "args": ["generate", command, "-c", cfgname]})
             index.append((k, v))
     results = P.run_cli_many(jobs)
     out = [dict() for _ in universes]
@@ -701,6 +772,12 @@ def coq_decl(d):
     return "(mkDecl %s %s %s)" % (coq_bytes(d["pkg"]), coq_bytes(d["name"]), body)
 
 
+def coq_sparam(p):
+    if p["loc"] == "ctx":
+        return "(SCtx %s)" % coq_bytes(p["name"])
+    return "(SAnn %s)" % coq_rparam(p)
+
+
 def coq_rparam(p):
     return "(mkRParam %s %s %s %s %s)" % (coq_bytes(p["name"]), P.coq_loc(p["loc"]), coq_option(p["alias"], coq_bytes),
                                           texpr_coq(p["type"]), coq_option(p["validate"], coq_bytes))
@@ -709,7 +786,7 @@ def coq_rparam(p):
 def coq_route(r):
     return "(mkRoute %s %s %s %s %s %s %s %s %s)" % (
         coq_bytes(r["name"]), coq_bytes(r["verb"]), coq_bytes(r["path"]), coq_bool(r["hidden"]),
-        coq_list([coq_rparam(p) for p in r["params"]]), coq_option(r["ret"], texpr_coq),
+        "(spec_params %s)" % coq_list([coq_sparam(p) for p in r["params"]]), coq_option(r["ret"], texpr_coq),
         coq_option(r["err"], lambda k: "(%s, %s)" % (coq_bytes(k[0]), coq_bytes(k[1]))),
         coq_list(["(%d%%N, %s)" % (c, coq_bytes(dsc)) for c, dsc in r["errors"]]),
         coq_list([coq_sec(x) for x in r["security"]]))
